@@ -29,6 +29,10 @@ func TestC02Regress(t *testing.T) {
 		// classes (two irregular class tables of 44 KB): Encode of the decoded table put the mark glyph
 		// sets last, beyond 64 KiB, and refused ("GDEF table too large")
 		{"gdef.Read", gdefSetsFirst(22000)},
+		// counts that include the first glyph, value 0: count-1 was computed in 16 bits (65535 entries per four-byte record)
+		{"gtab.Read/GSUB", zeroComponentLigatures(4000)},
+		{"gtab.Read/GSUB", zeroInputChainRules(4000, 1)},
+		{"gtab.Read/GSUB", zeroInputChainRules(4000, 2)},
 	}
 	for _, c := range cases {
 		tg := targetByName(c.target)
